@@ -62,6 +62,7 @@ def opsig(t):
 # some names consist of hexadecimal digits only: a name is a name, whatever it looks like
 CONST_NAMES = ['K0', 'C0', 'K2', 'BEEF', 'A1', 'K5', 'FACE', 'K7', 'DEAD', 'K9', 'K10', 'K11', 'K12']
 ENUMERATOR_NAMES = ['EN_0', 'AD', 'EN_2', 'F00D']
+SIBLING_NAMES = ENUMERATOR_NAMES + ['EM_A', 'EM_B', 'EM_C']
 
 
 def build_schema(rng, fmt, redundant, neutral=True):
@@ -170,6 +171,17 @@ def build_schema(rng, fmt, redundant, neutral=True):
         smem.append(S.Member('f%d' % i, tp, kind, v, size_text=txt))
         items.append({'role': 'array-size', 'name': 'SX.f%d' % i, 'member': 'f%d' % i, 'kind': kind, 'tree': t,
                       'value': v, 'text': txt})
+    # a second enum whose enumerators are built on each other, used as array sizes
+    a_ = rng.randint(1, 3)
+    em = [('EM_A', a_, '%d' % a_), ('EM_B', a_ + 1, 'EM_A + 1'), ('EM_C', (a_ + 1) * 2, 'EM_B * 2')]
+    sch.add(S.Enum('EM', em))
+    for (en, ev, etxt), tree in zip(em, (E.Lit(a_, 10), E.Bin('+', E.Name('EM_A', a_), E.Lit(1, 10)),
+                                         E.Bin('*', E.Name('EM_B', a_ + 1), E.Lit(2, 10)))):
+        items.append({'role': 'enumerator', 'name': en, 'tree': tree, 'value': ev, 'text': etxt})
+    for j, (en, ev) in enumerate((('EM_B', a_ + 1), ('EM_C', (a_ + 1) * 2))):
+        smem.append(S.Member('g%d' % j, 'u16', S.FIXED, ev, size_text=en))
+        items.append({'role': 'array-size', 'name': 'SX.g%d' % j, 'member': 'g%d' % j, 'kind': S.FIXED,
+                      'tree': E.Name(en, ev), 'value': ev, 'text': en})
     sch.add(S.Struct('SX', smem))
     arms = []
     used = set()
@@ -183,6 +195,18 @@ def build_schema(rng, fmt, redundant, neutral=True):
         items.append({'role': 'discriminator', 'name': 'UX.a%d' % i, 'arm': 'a%d' % i, 'tree': t, 'value': v, 'text': txt})
     sch.add(S.Union('UX', arms))
     return sch, items
+
+
+def _shift_right_outside_parens(text):
+    depth = 0
+    for i, ch in enumerate(text):
+        if ch == '(':
+            depth += 1
+        elif ch == ')':
+            depth -= 1
+        elif ch == '>' and depth == 0:
+            return True
+    return False
 
 
 def names_in(t):
@@ -325,8 +349,8 @@ def run_shard(spec):
                     mod = importlib.import_module(pkg + '.sch')
             except BaseException as e:  # noqa
                 mech = ISAR_MECH if sensitive else 'python-module-does-not-import:%s' % type(e).__name__
-                if (fmt == 'isar' and isinstance(e, NameError) and any(("'%s'" % n) in str(e) for n in ENUMERATOR_NAMES) and
-                        any(i['role'] == 'enumerator' and names_in(i['tree']) & set(ENUMERATOR_NAMES) for i in items)):
+                if (fmt == 'isar' and isinstance(e, NameError) and any(("'%s'" % n) in str(e) for n in SIBLING_NAMES) and
+                        any(i['role'] == 'enumerator' and names_in(i['tree']) & set(SIBLING_NAMES) for i in items)):
                     mech = SIBLING_MECH
                 acc.violation(PROP, mech, witness(error='%s: %s' % (type(e).__name__, str(e)[:400])))
             cppv = None
@@ -338,7 +362,11 @@ def run_shard(spec):
             try:
                 cppf = cpp_values(acc, wd, d, items, 'sch', full=True)
             except cppdrv.BuildFailed as e:
-                acc.violation(PROP, ISAR_MECH if sensitive else 'generated-cpp-full-does-not-compile', witness(error=str(e)[-800:]))
+                # the full codec pastes isar size texts into template arguments (array<T, text>): a '>>' that is not
+                # inside parentheses ends the argument list - the same recorded finding (text handed to the host language)
+                pasted = fmt == 'isar' and any(i['role'] == 'array-size' and _shift_right_outside_parens(i['text']) for i in items)
+                acc.violation(PROP, ISAR_MECH if sensitive or pasted else 'generated-cpp-full-does-not-compile',
+                              witness(error='\n'.join(l for l in str(e).split('\n') if 'error' in l)[:800]))
             import prophyc.calc as calc
             known = dict((n, v) for n, v in [(i['name'], i['value']) for i in items
                                              if i['role'] in ('constant', 'enumerator', 'big-constant')])
